@@ -209,7 +209,7 @@ theorem bucketOK_ne_nil {b : Digest.Bucket} (h : BucketOK b) : ∀ e ∈ b, e.1 
   intro e he hnil
   have := h.2 e he
   rw [hnil] at this
-  simp [validateNodePath] at this
+  simp [validateNodePathOld] at this
 
 theorem docOnlyBufMd_iff (fs : List (Str × Content)) :
     docOnlyBufMd fs = true ↔ (docPath (toBucket fs) = [] ∨ docPath (toBucket fs) = "buf.md".toList) := by
@@ -331,13 +331,9 @@ theorem sameSet_iff (a b : List (Str × Content)) : sameSet a b = true ↔ ∀ x
 
 /-- `moduleB5 … = .ok d` forces every dependency digest to be b5. -/
 theorem deps_b5_of_ok {H : Bytes → Digest} {b : Digest.Bucket} {deps : List MDigest} {d : MDigest}
-    (hb : BucketOK b) (h : moduleB5 H b deps = .ok d) :
-    deps.all (fun d => d.type = .b5) = true := by
-  cases hd : deps.all (fun d => decide (d.type = .b5)) with
-  | true => rfl
-  | false =>
-    rw [Digest.moduleB5_err H b deps hb hd] at h
-    cases h
+    (_hb : BucketOK b) (h : moduleB5 H b deps = .ok d) :
+    deps.all (fun d => d.type = .b5) = true :=
+  Digest.moduleB5_ok_deps_b5 h
 
 /-! ### `load` / `loadD` as equations -/
 
